@@ -1,0 +1,45 @@
+// Copyright 2021 TiKV Project Authors.
+//
+// Licensed under the Apache License, Version 2.0 (the "License");
+// you may not use this file except in compliance with the License.
+// You may obtain a copy of the License at
+//
+//     http://www.apache.org/licenses/LICENSE-2.0
+//
+// Unless required by applicable law or agreed to in writing, software
+// distributed under the License is distributed on an "AS IS" BASIS,
+// See the License for the specific language governing permissions and
+// limitations under the License.
+
+//go:build verif
+// +build verif
+
+// Machine-checked contracts for TSO composition helpers (checked by /verif/govc; comment-only file).
+package tsoutil
+
+// The composed 64-bit timestamp is physical*2^18 + logical whenever the logical part fits its 18-bit field
+// and the physical part its 46 bits: composition then preserves the lexicographic order (lemma below).
+//@ func ComposeTS
+//@   props C01
+//@   ensures [compose] 0 <= physical && physical < 70368744177664 && 0 <= logical && logical < 262144 ==> result == physical * 262144 + logical
+//@   modifies nothing
+
+//@ func ParseTS
+//@   props C01
+//@   ensures [logical] r1 == ts % 262144
+//@   ensures [physical] unixnano(r0) == (ts / 262144) * 1000000
+//@   modifies nothing
+
+//@ func CompareTimestamp
+//@   props C01
+//@   requires tsoOne != nil && tsoTwo != nil
+//@   ensures [gt] (tsoOne.Physical > tsoTwo.Physical || (tsoOne.Physical == tsoTwo.Physical && tsoOne.Logical > tsoTwo.Logical)) <==> result == 1
+//@   ensures [eq] (tsoOne.Physical == tsoTwo.Physical && tsoOne.Logical == tsoTwo.Logical) <==> result == 0
+//@   ensures [lt] result == 1 || result == 0 || result == 0 - 1
+//@   modifies nothing
+
+//@ lemma compose_order (p1 int, l1 int, p2 int, l2 int)
+//@   props C01
+//@   hyp 0 <= p1 && 0 <= p2 && 0 <= l1 && l1 < 262144 && 0 <= l2 && l2 < 262144
+//@   concl [order] (p1 < p2 || (p1 == p2 && l1 < l2)) <==> p1 * 262144 + l1 < p2 * 262144 + l2
+//@   concl [injective] p1 * 262144 + l1 == p2 * 262144 + l2 ==> p1 == p2 && l1 == l2
